@@ -16,7 +16,11 @@
       clause Q4 of [wfb] without any error being reported;
     - [AddInput n a] only with [a] created before [n]: a cyclic declaration made while [n]
       is unobserved is not detected by the engine, and observing it later inverts heights
-      with result class XOk. *)
+      with result class XOk;
+    - [ParStabilize p] only with a plan [p] that injects no fault into a bind function
+      ([par_plan_clean]): ParallelStabilize runs every node of a height block and keeps the
+      FIRST error, so a user error of one bind masks the height-limit rejection of another
+      bind of the same block, and the pass ends ill-formed with result class XUser. *)
 From incr Require Import Base Heap HeapSpec HeapProofs EngineDefs Engine EngineWf EngineLemmas.
 
 (** * Clauses *)
@@ -255,6 +259,19 @@ Fixpoint texp_top (s : state) (e : texp) : bool :=
   | _ => true
   end.
 
+(** the plans admitted under ParallelStabilize: an injected failure of a node's function names
+    an existing node that is not a bind's lhs-change node (failing cutoff predicates are free) *)
+Definition par_plan_clean (s : state) (p : plan) : bool :=
+  forallb (fun '(n, w, a) =>
+             match a, w with
+             | AFail _, WFn =>
+               match nodes s !! n with
+               | Some x => match nkind x with KBindLhs _ => false | _ => true end
+               | None => false
+               end
+             | _, _ => true
+             end) p.
+
 (** the extra demands on an operation (see the header) *)
 Definition op_clean (s : state) (o : op) : bool :=
   match o with
@@ -270,7 +287,7 @@ Definition op_clean (s : state) (o : op) : bool :=
   | AddInput n a => isTop s n && isTop s a && (a <? n)%nat
   | RemoveInput n a => isTop s n
   | Stabilize _ | StabilizeCancelled => true
-  | ParStabilize _ => false
+  | ParStabilize p => par_plan_clean s p
   end.
 
 Definition rejected (e : option err) : bool :=
